@@ -36,6 +36,8 @@ Record facts := mkfacts {
   defaults_persist : bool;        (* set_defaults(config file) writes onto the wrappers / constructor_arguments for good *)
   done_after_work : bool;         (* `_preprocessing_done = True` is the LAST statement of _preprocessing: a set-up that raises
                                      half-way is redone by the next call (false: the flag is set first and the parser stays half-built) *)
+  cfgarg_refreshed : bool;        (* when the help-only --config_path argument exists already, its default is set to THIS
+                                     call's value (false: it keeps the value of the call that added it) *)
   reg_by_class : bool             (* parse_enum keys the module-level registry `_parsing_fns` by the Enum CLASS OBJECT
                                      (false: by its "<module>.<qualname>" string, shared by distinct same-named classes) *)
 }.
@@ -236,6 +238,12 @@ Fixpoint split_cfg_go (taking : bool) (files : list string) (rest : list string)
       end
   end.
 Definition split_cfg (argv : list string) : list string * list string := split_cfg_go false [] [] argv.
+(* the value of the temporary parser's --config_path (nargs="*", default None), as it shows up as the `config_path`
+   attribute of the result: None when the option is absent, else the list of paths of its last occurrence *)
+Definition cfg_given (argv : list string) : bool :=
+  existsb (fun t => match classify true [(CFG_OPT, 0)] t with TO _ => true | _ => false end) argv.
+Definition cfg_attr (argv : list string) : string :=
+  if cfg_given argv then "list(" ++ String.concat "," (map (fun x => "path:" ++ x) (fst (split_cfg argv))) ++ ")" else "none".
 
 (* set_defaults(file) for each named file, in order; a name without a registered extension (read_file ->
    get_extension) or a missing file raises after the earlier ones were applied *)
@@ -390,8 +398,9 @@ Definition postprocess (su : setup) (adds : list add) (live : kv) (ns : kv) (ext
 (* ---------- the machine ---------- *)
 Record pstate := mkp {
   p_cfg : cfg; p_cr : crmode; p_cfgarg : bool; p_adds : list add;
-  p_setup : option setup; p_cnt : counters; p_added : bool; p_live : kv }.
-Definition new_p (d : pdef) : pstate := mkp (df_cfg d) (df_cr d) (df_cfgarg d) (df_adds d) None [] false [].
+  p_setup : option setup; p_cnt : counters; p_added : bool; p_live : kv;
+  p_cfgdef : string }.       (* default of the help-only --config_path action (meaningful once p_added) *)
+Definition new_p (d : pdef) : pstate := mkp (df_cfg d) (df_cr d) (df_cfgarg d) (df_adds d) None [] false [] "".
 Definition def_of (p : pstate) : pdef := mkdef (p_cfg p) (p_cr p) (p_cfgarg p) (p_adds p).
 
 Record state := mkst { st_g : glob; st_slots : list (nat * pstate) }.
@@ -435,6 +444,16 @@ Section Machine.
   Definition registered (g : glob) (p : pstate) : glob :=
     mkglob (gl_cfg g) (register (reg_by_class f) (gl_reg g) (enums_of (p_adds p))).
 
+  (* the default of the help-only --config_path action after this call (= the `config_path` attribute of its result):
+     this call's value when the action is new or refreshed, else the value of the call that added it *)
+  Definition cfg_default (p : pstate) (argv : list string) : string :=
+    if p_added p && negb (cfgarg_refreshed f) then p_cfgdef p else cfg_attr argv.
+  Definition with_cfg_attr (added : bool) (cfgdef : string) (v : vals) : vals :=
+    match v with
+    | Ok l => Ok (l ++ (if added then [("+config_path", cfgdef)] else []))%list
+    | Err e => Err e
+    end.
+
   (* what parse_known_args does before _preprocessing: split off --config_path, read the files *)
   Definition prep (p : pstate) (argv : list string) : list string * (res unit * kv) :=
     let live0 := if defaults_persist f then p_live p else [] in
@@ -444,22 +463,23 @@ Section Machine.
   Definition parse_step (g : glob) (p : pstate) (argv : list string) : glob * pstate * vals :=
     let cnt0 := if tuple_counter_persists f then p_cnt p else [] in
     let '(args, (rl, live1)) := prep p argv in
-    let p1 := mkp (p_cfg p) (p_cr p) (p_cfgarg p) (p_adds p) (p_setup p) cnt0 (p_added p) live1 in
+    let p1 := mkp (p_cfg p) (p_cr p) (p_cfgarg p) (p_adds p) (p_setup p) cnt0 (p_added p) live1 (p_cfgdef p) in
     match rl with
     | Err e => (g, p1, Err e)
     | Ok _ =>
         if p_cfgarg p && p_added p && cfgarg_every_parse f then (g, p1, Err (Raise "ArgumentError")) else
         let added := p_added p || p_cfgarg p in
+        let cfgdef := cfg_default p argv in
         let g' := setup_g g p in
         match (match cached p with Some su => Ok su | None => setup_in g' p live1 args end) with
-        | Err e => (g', mkp (p_cfg p) (p_cr p) (p_cfgarg p) (p_adds p) (after_failure p live1) cnt0 added live1, Err e)
+        | Err e => (g', mkp (p_cfg p) (p_cr p) (p_cfgarg p) (p_adds p) (after_failure p live1) cnt0 added live1 cfgdef, Err e)
         | Ok su =>
             let (r, cnt1) := parse_acts true (main_acts added su) cnt0 args in
             ((match cached p with Some _ => g' | None => registered g' p end),
-             mkp (p_cfg p) (p_cr p) (p_cfgarg p) (p_adds p) (Some su) cnt1 added live1,
+             mkp (p_cfg p) (p_cr p) (p_cfgarg p) (p_adds p) (Some su) cnt1 added live1 cfgdef,
              match r with
              | Err e => Err e
-             | Ok (ns, extras) => postprocess su (p_adds p) live1 ns extras
+             | Ok (ns, extras) => with_cfg_attr added cfgdef (postprocess su (p_adds p) live1 ns extras)
              end)
         end
     end.
@@ -468,10 +488,10 @@ Section Machine.
   Definition help_step (g : glob) (p : pstate) : glob * pstate * obs :=
     let g' := setup_g g p in
     match (match cached p with Some su => Ok su | None => setup_in g' p (p_live p) [] end) with
-    | Err e => (g', mkp (p_cfg p) (p_cr p) (p_cfgarg p) (p_adds p) (after_failure p (p_live p)) (p_cnt p) (p_added p) (p_live p),
+    | Err e => (g', mkp (p_cfg p) (p_cr p) (p_cfgarg p) (p_adds p) (after_failure p (p_live p)) (p_cnt p) (p_added p) (p_live p) (p_cfgdef p),
                 OFail e)
     | Ok su => ((match cached p with Some _ => g' | None => registered g' p end),
-                mkp (p_cfg p) (p_cr p) (p_cfgarg p) (p_adds p) (Some su) (p_cnt p) (p_added p) (p_live p), ODone)
+                mkp (p_cfg p) (p_cr p) (p_cfgarg p) (p_adds p) (Some su) (p_cnt p) (p_added p) (p_live p) (p_cfgdef p), ODone)
     end.
 
   Definition step (s : state) (o : op) : state * obs :=
@@ -481,7 +501,7 @@ Section Machine.
         match slot_get (st_slots s) i with
         | None => (s, ONoParser)
         | Some p => (mkst (st_g s) (slot_set (st_slots s) i
-                       (mkp (p_cfg p) (p_cr p) (p_cfgarg p) (p_adds p ++ [(d, dest)])%list (p_setup p) (p_cnt p) (p_added p) (p_live p))),
+                       (mkp (p_cfg p) (p_cr p) (p_cfgarg p) (p_adds p ++ [(d, dest)])%list (p_setup p) (p_cnt p) (p_added p) (p_live p) (p_cfgdef p))),
                      ODone)
         end
     | Parse i argv =>
@@ -537,6 +557,8 @@ Section Machine.
         && match choose (p_cfg p) (p_adds p) args with Ok ch => kv_eqb ch (su_chosen su) | Err _ => false end
         && kv_eqb (su_fr su) live1
     end.
+  (* (0277e53) the help-only --config_path argument exists already and keeps the value of the call that added it *)
+  Definition b_cfgattr (p : pstate) : bool := cfgarg_refreshed f || negb (p_added p).
   (* (#5') defaults written by an earlier call's config files are still there *)
   Definition b_defaults (p : pstate) : bool :=
     negb (defaults_persist f) || match p_live p with [] => true | _ => false end.
@@ -547,6 +569,7 @@ Section Machine.
         match slot_get (st_slots s) i with
         | None => true
         | Some p => b_spelling (st_g s) p && b_registry (st_g s) p && b_cfgarg p && b_tuple p && b_frozen p argv && b_defaults p
+                    && b_cfgattr p
         end
     | PrintHelp i =>
         match slot_get (st_slots s) i with
@@ -562,4 +585,4 @@ End Machine.
 
 Definition all_repaired (f : facts) : bool :=
   reasserts f && negb (cfgarg_every_parse f) && negb (setup_cached f) && negb (tuple_counter_persists f)
-  && negb (defaults_persist f) && reg_by_class f.
+  && negb (defaults_persist f) && reg_by_class f && cfgarg_refreshed f.
